@@ -148,7 +148,12 @@ func (fc *FnCtx) evalIdent(st *State, id *ast.Ident) Val {
 
 func (fc *FnCtx) readGlobal(st *State, o *types.Var) Val {
 	key := fc.globalKey(o)
-	return Val{T: fc.heapGet(st, key, fc.sortOf(o.Type())), Ty: o.Type()}
+	t := fc.heapGet(st, key, fc.sortOf(o.Type()))
+	if _, isSlice := o.Type().Underlying().(*types.Slice); isSlice && fc.inSpec == 0 {
+		// a package-level slice variable holds a real slice header
+		fc.assume(st, fc.wellFormed(t, o.Type()))
+	}
+	return Val{T: t, Ty: o.Type()}
 }
 
 func (fc *FnCtx) evalBinary(st *State, x *ast.BinaryExpr) Val {
